@@ -59,6 +59,9 @@ fn convert_interpreter_output_for_js(value: InterpreterOutput) -> JsInterpreterO
 pub struct JsInterpreter {
     interpreter: Interpreter,
     latest_error: Option<String>,
+    /// Output of an interpreter that has since been replaced via `NEW`
+    /// but that hasn't been taken by the page yet.
+    orphaned_output: Vec<InterpreterOutput>,
 }
 
 #[wasm_bindgen]
@@ -70,6 +73,10 @@ impl JsInterpreter {
 
     fn maybe_replace_interpreter(&mut self) {
         if self.interpreter.get_state() == InterpreterState::NewInterpreterRequested {
+            // The page only takes output when it handles the current state, so
+            // the old interpreter may still hold output nobody has seen yet.
+            self.orphaned_output
+                .extend(self.interpreter.take_output());
             self.interpreter = Interpreter::default();
         }
     }
@@ -83,9 +90,9 @@ impl JsInterpreter {
     }
 
     pub fn take_latest_output(&mut self) -> Vec<JsInterpreterOutput> {
-        self.interpreter
-            .take_output()
+        std::mem::take(&mut self.orphaned_output)
             .into_iter()
+            .chain(self.interpreter.take_output())
             .map(|output| convert_interpreter_output_for_js(output))
             .collect::<Vec<_>>()
     }
